@@ -800,6 +800,15 @@ fn emit_target(ctx: &mut Ctx, unit: &Unit, t: &Target) -> Emitted {
         let marker: Stmt = syn::parse_quote!(#id(););
         match sp.place.as_str() {
             "start" => block.stmts.insert(0, marker),
+            "tail" => {
+                // a statement-position block/match that ends the fragment must not become the value
+                if let Some(Stmt::Expr(e, semi @ None)) = block.stmts.last_mut() {
+                    if matches!(e, Expr::Match(_) | Expr::If(_) | Expr::Block(_) | Expr::While(_) | Expr::Loop(_) | Expr::ForLoop(_)) {
+                        *semi = Some(Default::default());
+                    }
+                }
+                block.stmts.push(marker)
+            }
             "end" => {
                 // before a tail expression if there is one
                 let n = block.stmts.len();
